@@ -6,6 +6,7 @@
 package c18
 
 import (
+	"bytes"
 	"fmt"
 	"sort"
 	"strings"
@@ -162,6 +163,13 @@ func (w *world) act(t *rapid.T, cl *client, action, to, variant string) actResul
 	}
 	out.Accepted = true
 	w.logf(action, cl.name, arg, "accepted")
+	// a proposal names ONE chain: whatever it installs, the clients of all other chain names (also names that begin with, or
+	// are the beginning of, this one) stay as they are
+	for _, e := range kit.Diff(before, w.xibc()) {
+		if !bytes.HasPrefix(e.Key, []byte("clients/"+cl.name+"/")) {
+			w.fail(t, "%s changed an entry outside the client store of %q: %s", what, cl.name, e.String())
+		}
+	}
 	if !spec.valid() {
 		switch action {
 		case "create":
